@@ -662,7 +662,20 @@ def instantiate_premise(rng, sig, rule, elems, facts, by_type, new_elem):
         if k != "if":
             continue
         if a[0] == "pred":
-            facts.append(("row", a[1], [value(t, c) for t, c in zip(a[2], rels[a[1]]["cols"])]))
+            row = [value(t, c) for t, c in zip(a[2], rels[a[1]]["cols"])]
+            facts.append(("row", a[1], row))
+            # near-diagonal rows: when a variable is repeated in the atom, also assert rows that agree with the matching row
+            # except at one of the repeated positions (they are off the diagonal but share projections with it)
+            vs = [t[1] if t[0] == "var" else None for t in a[2]]
+            rep = [i for i, v in enumerate(vs) if v is not None and vs.count(v) >= 2]
+            if rep and rng.chance(2, 3):
+                for _ in range(1 + rng.below(2)):
+                    i = rng.choice(rep)
+                    other = [e for e in by_type(rels[a[1]]["cols"][i]) if e != row[i]]
+                    if other:
+                        r2 = list(row)
+                        r2[i] = rng.choice(other)
+                        facts.append(("row", a[1], r2))
         elif a[0] == "eq":
             if a[2][0] == "app" and a[1][0] == "var" and a[1][1] not in asg:
                 asg[a[1][1]] = value(a[2], None)
